@@ -1860,3 +1860,101 @@ def gadget_exec_stubs():
     A = 'github.com/reilabs/gnark-lean-extractor/v2/abstractor.'
     return {A + 'Call': abstractor_Call_exec(False), A + 'Call1': abstractor_Call_exec(True), A + 'Call2': abstractor_Call_exec(True), A + 'Call3': abstractor_Call_exec(True),
             A + 'CallVoid': abstractor_Call_exec(False), 'prefix': [('opaque:api.', api_any)]}
+
+
+# ------------------------------------------------------------------------------------------ bufio writers/readers over token streams (C11)
+def unwrap_io(v):
+    return v.v if isinstance(v, Iface) else v
+
+
+def emit_token(ex, st, w, tok):
+    """append a token to a stream, or to the pending buffer of a bufio.Writer in front of it"""
+    w = unwrap_io(w)
+    if isinstance(w, Opaque) and w.tag == 'bufwriter':
+        d = ostate(st, w)
+        oset(st, w, pending=d.get('pending', ()) + (tok,))
+        return
+    s_ = stream_of(w)
+    d = ostate(st, s_)
+    oset(st, s_, tokens=d['tokens'] + (tok,))
+
+
+def bufio_NewWriterSize(ex, st, args, ctx):
+    used('bufio.Writer: data stays in the buffer until Flush (or until the buffer fills); what is never flushed never reaches the file')
+    o = Opaque('bufwriter', inner=args[0], oid=new_oid())
+    oset(st, o, pending=())
+    return o
+
+
+def bufwriter_Flush(ex, st, args, ctx):
+    w = unwrap_io(args[0])
+    d = ostate(st, w)
+    for tok in d.get('pending', ()):
+        emit_token(ex, st, w.inner, tok)
+    oset(st, w, pending=())
+    return NIL
+
+
+def bufwriter_Write(ex, st, args, ctx):
+    data = args[1]
+    cells = ex.cells(st, data)
+    emit_token(ex, st, args[0], ('bytes', tuple(cells[:data.len])))
+    return (bvval(data.len, 64), NIL)
+
+
+def stream_Write2(ex, st, args, ctx):
+    data = args[1]
+    cells = ex.cells(st, data)
+    if not isinstance(data.len, int):
+        raise Unsupported('stream write of symbolic length')
+    emit_token(ex, st, args[0], ('bytes', tuple(cells[:data.len])))
+    return (bvval(data.len, 64), NIL)
+
+
+def section_write2(kind, raw):
+    def f(ex, st, args, ctx):
+        used('gnark %s.WriteTo/WriteRawTo: appends one opaque section (compressed or raw) holding the object; ReadFrom/UnsafeReadFrom restores it from either form' % kind)
+        emit_token(ex, st, args[1], ('section', kind, None, args[0], raw))
+        return (z3.BitVec(ex.newsym('written'), 64), NIL)
+    return f
+
+
+def bufio_NewReaderSize2(ex, st, args, ctx):
+    used('bufio.Reader: reads ahead from the underlying reader; once a bufio.Reader has read from a stream, reading the stream directly misses the bytes it buffered. NewReaderSize returns its argument when that already is a large enough bufio.Reader')
+    inner = unwrap_io(args[0])
+    if isinstance(inner, Opaque) and inner.tag == 'bufreader':
+        return inner
+    return Opaque('bufreader', inner=args[0], oid=new_oid())
+
+
+def reader_owner(v):
+    v = unwrap_io(v)
+    return v.oid if isinstance(v, Opaque) and v.tag == 'bufreader' else None
+
+
+def guard_readahead(fn):
+    """wrap a stream-reading stub: a direct read after some bufio.Reader buffered from the same stream fails"""
+    def f(ex, st, args, ctx):
+        r = args[0] if not (isinstance(unwrap_io(args[0]), Opaque) and unwrap_io(args[0]).tag in ('pk', 'vk', 'cs')) else args[1]
+        s_ = stream_of(r)
+        d = ostate(st, s_)
+        me = reader_owner(r)
+        owner = d.get('buffered_by')
+        if owner is not None and owner != me:
+            st.events.append(('tag', 'read_past_bufio'))
+            return (bvval(0, 64), Iface(-1, Opaque('error', msg=S('data was consumed by a bufio.Reader read-ahead'), origin=ctx['pos'])))
+        if me is not None:
+            oset(st, s_, buffered_by=me)
+        return fn(ex, st, args, ctx)
+    return f
+
+
+BASE.update({'bufio.NewWriterSize': bufio_NewWriterSize, 'bufio.NewWriter': bufio_NewWriterSize, 'opaque:bufwriter.Flush': bufwriter_Flush, '(*bufio.Writer).Flush': bufwriter_Flush,
+             'opaque:bufwriter.Write': bufwriter_Write, '(*bufio.Writer).Write': bufwriter_Write, 'opaque:stream.Write': stream_Write2,
+             'opaque:pk.WriteTo': section_write2('pk', False), 'opaque:pk.WriteRawTo': section_write2('pk', True),
+             'opaque:vk.WriteTo': section_write2('vk', False), 'opaque:vk.WriteRawTo': section_write2('vk', True), 'opaque:cs.WriteTo': section_write2('cs', False),
+             'bufio.NewReaderSize': bufio_NewReaderSize2, 'bufio.NewReader': bufio_NewReaderSize2,
+             'io.ReadFull': guard_readahead(io_ReadFull),
+             'opaque:pk.UnsafeReadFrom': guard_readahead(section_read('pk')), 'opaque:pk.ReadFrom': guard_readahead(section_read('pk')),
+             'opaque:vk.UnsafeReadFrom': guard_readahead(section_read('vk')), 'opaque:vk.ReadFrom': guard_readahead(section_read('vk')),
+             'opaque:cs.ReadFrom': guard_readahead(section_read('cs'))})
